@@ -47,7 +47,45 @@ def run_property(prop, tier, seed, only=None, verbose=False):
         extra_info = extra(tier, seed)
         obligations += extra_info.get('obligations', [])
     discharge.discharge(obligations, timeout_ms=timeout_ms, fallbacks=True)
+    refute_bounded(obligations, verbose)
     return report.conclude(prop, tier, seed, mod, cresults, obligations, time.time() - t0, extra_info, verbose=verbose)
+
+
+def refute_bounded(obligations, verbose=False, bound=3):
+    """Counterexample search for obligations left unknown: regenerate their contract with every array length
+    <= bound and index quantifiers expanded (quantifier-free), and look for a model.  Only refutes."""
+    from pyvc import nparr
+    unk = [ob for ob in obligations if ob.status == 'unknown' and getattr(ob, 'contract', None) is not None]
+    if not unk:
+        return
+    wanted = set((ob.fn, ob.clause) for ob in unk)
+    contracts = {}
+    for ob in unk:
+        contracts[id(ob.contract)] = ob.contract
+    obs2 = []
+    nparr.BOUND = bound
+    try:
+        for c in contracts.values():
+            try:
+                cr2 = generate(c)
+            except Exception:
+                continue
+            if cr2.status == 'ok':
+                obs2 += [o for o in cr2.obligations if (o.fn, o.clause) in wanted]
+        discharge.discharge(obs2, timeout_ms=20000, fallbacks=False)
+    finally:
+        nparr.BOUND = None
+    for o2 in obs2:
+        if o2.status != 'refuted':
+            continue
+        cands = [ob for ob in unk if ob.status == 'unknown' and ob.fn == o2.fn and ob.clause == o2.clause]
+        if not cands:
+            continue
+        ob = sorted(cands, key=lambda x: x.path != o2.path)[0]
+        ob.status, ob.model, ob.backend = 'refuted', o2.model, '%s on the bounded instance (array lengths <= %d)' % (o2.backend, bound)
+        ob.output = (ob.output or '') + '; bounded instance: sat'
+        if verbose:
+            print('  bounded refutation found for', ob.name)
 
 
 def main(argv=None):
